@@ -635,6 +635,117 @@ def buffer_roots(repo: Repo, fi: FunctionInfo, du: DefUse, e: ast.AST, at: ast.A
     return {f"fresh@{getattr(b, 'lineno', 0)}:{getattr(b, 'col_offset', 0)}"}
 
 
+# ------------------------------------------------------------------------------------------------ finite label domain
+def _is_label_vector(du: DefUse, e: ast.AST, at: ast.AST, labels: Sequence[str], depth: int = 0) -> bool:
+    if depth > 5 or e is None:
+        return False
+    if loc_name(e) in labels:
+        return True
+    if isinstance(e, ast.Call):
+        nm = call_name(e)
+        if nm in ("asarray", "array", "atleast_1d", "asanyarray", "squeeze", "ravel", "int8", "int32", "int64", "copy") and e.args:
+            return _is_label_vector(du, e.args[0], at, labels, depth + 1)
+        if isinstance(e.func, ast.Attribute) and e.func.attr in ("astype", "copy", "ravel", "flatten", "squeeze", "get"):
+            return _is_label_vector(du, e.func.value, at, labels, depth + 1)
+    if isinstance(e, ast.Name):
+        d = du.single_def_value(e.id, at)
+        if d is not None and d.kind == "assign" and d.value is not None and d.unpack_index is None:
+            return _is_label_vector(du, d.value, d.stmt, labels, depth + 1)
+    return False
+
+
+def label_set(du: DefUse, e: ast.AST, at: ast.AST, labels: Sequence[str], domain: Sequence[int] = (0, 1, 2, 3), depth: int = 0):
+    """The set of label values v such that the boolean mask / index array `e` selects exactly the channels whose label is in the set.
+    The labels are only ever touched through comparisons with constants, so a mask is a function of the label alone and the finite
+    domain is evaluated exhaustively.  None when `e` is not such a mask (it depends on something else than the labels)."""
+    D = frozenset(domain)
+    if depth > 10 or e is None:
+        return None
+    rec = lambda x, a=at: label_set(du, x, a, labels, domain, depth + 1)
+    if isinstance(e, ast.Name):
+        ds = du.strong_reaching(e.id, at)
+        if len(ds) != 1:
+            return None
+        d = ds[0]
+        if isinstance(d.stmt, ast.For) and d.kind in ("for", "unpack"):
+            return label_set(du, d.stmt.iter, d.stmt, labels, domain, depth + 1) if d.kind == "for" else None
+        if d.kind == "assign" and d.value is not None and d.unpack_index is None:
+            return label_set(du, d.value, d.stmt, labels, domain, depth + 1)
+        return None
+    if isinstance(e, ast.Subscript):
+        ok, k = const_value(e.slice)
+        if ok and k == 0 and isinstance(expand_name(du, e.value, at), ast.Call) and call_name(expand_name(du, e.value, at)) in ("where", "nonzero"):
+            return rec(expand_name(du, e.value, at).args[0]) if expand_name(du, e.value, at).args else None
+        return None
+    if isinstance(e, ast.Call):
+        nm = call_name(e)
+        if nm in ("flatnonzero", "argwhere") and len(e.args) == 1:
+            return rec(e.args[0])
+        if nm in ("where", "nonzero") and len(e.args) == 1:
+            return None   # a tuple of index arrays: needs [0]
+        if nm in ("logical_or", "logical_and", "bitwise_or", "bitwise_and") and len(e.args) >= 2:
+            a, b = rec(e.args[0]), rec(e.args[1])
+            if a is None or b is None:
+                return None
+            return (a | b) if nm.endswith("or") else (a & b)
+        if nm in ("logical_not", "invert", "bitwise_not") and e.args:
+            a = rec(e.args[0])
+            return None if a is None else D - a
+        if nm in ("isin", "in1d") and len(e.args) >= 2 and _is_label_vector(du, e.args[0], at, labels):
+            ok, vals = const_value(expand_name(du, e.args[1], at))
+            if ok and isinstance(vals, (list, tuple, set)):
+                s_ = frozenset(v for v in D if v in vals)
+                inv = kwarg_value(e, "invert")
+                return D - s_ if inv is True else s_
+            return None
+        if nm in ("asarray", "array") and e.args:
+            return rec(e.args[0])
+        return None
+    if isinstance(e, ast.BoolOp):
+        parts = [rec(v) for v in e.values]
+        if any(p is None for p in parts):
+            return None
+        out = parts[0]
+        for p in parts[1:]:
+            out = (out | p) if isinstance(e.op, ast.Or) else (out & p)
+        return out
+    if isinstance(e, ast.BinOp) and isinstance(e.op, (ast.BitOr, ast.BitAnd)):
+        a, b = rec(e.left), rec(e.right)
+        if a is None or b is None:
+            return None
+        return (a | b) if isinstance(e.op, ast.BitOr) else (a & b)
+    if isinstance(e, ast.UnaryOp) and isinstance(e.op, (ast.Invert, ast.Not)):
+        a = rec(e.operand)
+        return None if a is None else D - a
+    if isinstance(e, ast.Compare) and len(e.ops) == 1:
+        l, r, op = e.left, e.comparators[0], e.ops[0]
+        flip = False
+        if not _is_label_vector(du, l, at, labels) and _is_label_vector(du, r, at, labels):
+            l, r, flip = r, l, True
+        if not _is_label_vector(du, l, at, labels):
+            return None
+        ok, c = const_value(expand_name(du, r, at))
+        if isinstance(op, (ast.In, ast.NotIn)):
+            return None
+        if not ok or not isinstance(c, (int, float)) or isinstance(c, bool):
+            return None
+        import operator as _op
+        table = {ast.Eq: _op.eq, ast.NotEq: _op.ne, ast.Lt: _op.lt, ast.LtE: _op.le, ast.Gt: _op.gt, ast.GtE: _op.ge}
+        f = table.get(type(op))
+        if f is None:
+            return None
+        return frozenset(v for v in D if (f(c, v) if flip else f(v, c)))
+    return None
+
+
+def kwarg_value(call: ast.Call, name: str):
+    for k in call.keywords:
+        if k.arg == name:
+            ok, v = const_value(k.value)
+            return v if ok else None
+    return None
+
+
 # ------------------------------------------------------------------------------------------------ group-by idioms
 def _def_of(du: DefUse, name: str, at: ast.AST):
     ds = du.strong_reaching(name, at)
